@@ -8,4 +8,4 @@ Extraction Blacklist String List Nat Bool Char.
 Extraction "dlmodel.ml"
   parse_shape scalar_type expression_from_string evaluate check run_ctx ctx0
   decorate run_call decorate_class run_construct run_pydantic_from validate_field
-  sprint pyden print_sshape read_env effective_enabled returns_original dtype_accepted tokenize postfix_from_infix.
+  class_def_refused sprint pyden print_sshape mk_bin mk_isqrt mk_fun2 read_env effective_enabled returns_original dtype_accepted tokenize postfix_from_infix.
